@@ -622,11 +622,24 @@ package objects
 //@ callersof append:QueuePreemptionSnapshot.PotentialVictims props C07 : objects.Queue.findEligiblePreemptionVictims
 
 // required-node preemption candidates
+// required-node preemption: candidates come from the required node only; every successfully marked victim is booked as
+// preempting on its own queue with its own size; the shim is told about exactly the victims, as preempted by the scheduler
+//@ func (p *PreemptionContext) tryPreemption()
+//@   props C07 C08
+//@   sweep
+//@   mode nopanic=off
+//@   loop 1: exhaustive
+//@   at[tracked] call objects.Queue.IncPreemptingResource#1: assert arg0 == victimQueue && arg1 == victim.allocatedResource && victim.preempted && !victim.released
+//@   at[ownqueue] call objects.Queue.GetQueueByAppID#1: assert arg1 == victim.applicationID && victim.preempted
+//@   at[triggered] call objects.Allocation.MarkTriggeredPreemption#1: assert arg0 == p.requiredAsk && len(victims) > 0
+//@   at[announce] call objects.Application.notifyRMAllocationReleased#1: assert arg0 == p.application && arg1 == victims && arg2 == 3 && ncalls(objects.Allocation.MarkTriggeredPreemption) == 1
+
 //@ func (p *PreemptionContext) filterAllocations() (result filteringResult)
 //@   props C07
 //@   sweep
 //@   mode nopanic=off
 //@   at[eligible] append PreemptionContext.allocations#1: assert elem.requiredNode == "" && !elem.released && !elem.preempted && elem.priority <= p.requiredAsk.priority
+//@   at[onnode] call objects.Node.GetYunikornAllocations#1: assert arg0 == p.node
 //@   at[shares] append PreemptionContext.allocations#1: assert p.requiredAsk.allocatedResource == elem.allocatedResource || (exists t Key :: has(p.requiredAsk.allocatedResource, t) && has(elem.allocatedResource, t))
 
 // quota preemption candidates
